@@ -139,6 +139,7 @@ def analyse_x86(insns, order, entry, name):
     init['rsp'] = ('sp', 0)
     states = {entry: (init, {})}          # addr -> (regs, stack slots {sp offset: abstract})
     zero = {}                              # straight-line only: registers known to hold 0
+    cf = ['?', '']                         # straight-line only: carry flag known constant (and which instruction made it so)
     join_points = set()
     for i_ in insns.values():
         if i_.mnem.startswith('j') and i_.ops:
@@ -163,6 +164,16 @@ def analyse_x86(insns, order, entry, name):
         R.insn_count += 1
         mn = ins.mnem
         ops = ins.ops
+        if a in join_points:
+            cf[0] = '?'
+        if mn in ('jb', 'jc', 'jnae', 'jae', 'jnb', 'jnc') and cf[0] in (0, 1):
+            R.problems.append('conditional jump at %#x (%s) depends only on the carry flag, which the preceding flag-setting instruction '
+                              '(%s) leaves constant: one arm of the compare-and-correct tail is dead' % (a, ins.text.split('\t', 1)[-1].strip(), cf[1]))
+        base_mn = mn.rstrip('qlwb') if mn not in ('jb',) else mn
+        if mn.startswith(('xor', 'and', 'or', 'test')) and not mn.startswith('orb_'):
+            cf[0], cf[1] = 0, ins.text.split('\t', 1)[-1].strip()
+        elif mn.startswith(('add', 'adc', 'sub', 'sbb', 'cmp', 'neg', 'mul', 'imul', 'shl', 'shr', 'sar', 'bt', 'adcx', 'cpuid')):
+            cf[0] = '?'
         if mn.startswith('j') or a in join_points:
             zero.clear()
         nxt = order[idx[a] + 1] if idx[a] + 1 < len(order) else None
@@ -614,8 +625,9 @@ def rule_asm(ctx, cfg, prog, outdir, rule='R-ASM'):
         proto = leaves.get(name) or leaves.get(name.replace('_bmi2_adx', ''))
         R = routine(tbl, name)
         n += 1
-        ctx.ob(rule, not R.problems, 'asm|abi|' + name, name,
-               '%s: %s' % (name, '; '.join(R.problems[:4])), cfg=cfg,
+        abi_problems = [p_ for p_ in R.problems if 'conditional jump' not in p_]
+        ctx.ob(rule, not abi_problems, 'asm|abi|' + name, name,
+               '%s: %s' % (name, '; '.join(abi_problems[:4])), cfg=cfg,
                sample=dict(config=cfg, routine=name, instructions=R.insn_count, accesses=len(R.accesses), rets=R.rets, frame=-R.min_sp))
         bad = []
         for acc in R.accesses:
